@@ -76,7 +76,8 @@ class C14(HistoryProp):
 
     def decode(self, src):
         ops = [['engine', E]]
-        for _ in range(1 + src.n(4)):
+        nfacts = 1 + src.n(4) if src.n(4) else 8 + src.n(6)        # sometimes more than eight facts (with duplicates)
+        for _ in range(nfacts):
             ops.append(['assert', E, d(src.pick(K)), True])
         mode = src.n(4)
         if mode == 3:
